@@ -147,7 +147,7 @@ fn fail(ctx: &mut Ctx, key: String, what: &str, detail: serde_json::Value) {
 pub fn run_core<F: PF>(ctx: &mut Ctx) {
     let n = F::NAME;
     let p = modulus::<F>();
-    let nrand = if ctx.quick() { 6 } else { 40 };
+    let nrand = crate::sz(ctx, 6, 40);
     let cls = classes::<F>(ctx, nrand);
     let els: Vec<F> = cls.iter().map(|(_, v)| fe::<F>(v)).collect();
 
@@ -165,6 +165,49 @@ pub fn run_core<F: PF>(ctx: &mut Ctx) {
     ];
     for (c, v) in &consts {
         ctx.case("const", true, &format!("const {n} {c}"), &big_hex(v));
+    }
+    // defining equations of the published constants, on the running values
+    {
+        let g = canon(&F::MULTIPLICATIVE_GENERATOR);
+        let s = F::S as usize;
+        let mut t = &p - 1u32;
+        let mut true_s = 0usize;
+        while (&t % 2u32).is_zero() {
+            t /= 2u32;
+            true_s += 1;
+        }
+        let rou = canon(&F::ROOT_OF_UNITY);
+        let mut bad: Vec<&str> = vec![];
+        if s != true_s {
+            bad.push("S");
+        }
+        if g.modpow(&((&p - 1u32) / 2u32), &p) != &p - 1u32 {
+            bad.push("MULTIPLICATIVE_GENERATOR is a quadratic residue");
+        }
+        if rou.modpow(&pow2(s), &p) != BigUint::one() || (s > 0 && rou.modpow(&pow2(s - 1), &p) == BigUint::one()) {
+            bad.push("ROOT_OF_UNITY order");
+        }
+        if rou != g.modpow(&((&p - 1u32) >> s), &p) && s == true_s {
+            bad.push("ROOT_OF_UNITY != g^t");
+        }
+        if (&rou * canon(&F::ROOT_OF_UNITY_INV)) % &p != BigUint::one() {
+            bad.push("ROOT_OF_UNITY_INV");
+        }
+        if canon(&F::DELTA) != g.modpow(&pow2(s), &p) {
+            bad.push("DELTA");
+        }
+        if (canon(&F::TWO_INV) * 2u32) % &p != BigUint::one() {
+            bad.push("TWO_INV");
+        }
+        if canon(&F::ONE) != BigUint::one() {
+            bad.push("ONE");
+        }
+        // (the placeholder constants of bls12_381::Fp are reported under their own known key
+        // in run_bls_extras)
+        let placeholders_only = n == "BlsFp" && bad.iter().all(|b| *b == "S" || *b == "DELTA");
+        if !bad.is_empty() && !placeholders_only {
+            fail(ctx, format!("{n}:constants:{}", bad.join("|")), "a published PrimeField constant violates its defining equation", json!({"field": n, "violated": bad}));
+        }
     }
     if F::CAPACITY != F::NUM_BITS - 1 || p.bits() as u32 != F::NUM_BITS {
         fail(ctx, format!("{n}:NUM_BITS"), "NUM_BITS/CAPACITY do not describe the modulus", json!({"field": n}));
@@ -297,7 +340,7 @@ pub fn run_core<F: PF>(ctx: &mut Ctx) {
         BigUint::zero(), BigUint::one(), BigUint::from(2u32), BigUint::from(3u32), &p - 1u32, &p - 2u32, (&p - 1u32) / 2u32,
         p.clone(), pow2(64) - 1u32, pow2(64), pow2(64 * F::LIMBS) - 1u32,
     ];
-    for _ in 0..(if ctx.quick() { 3 } else { 20 }) {
+    for _ in 0..(crate::sz(ctx, 3, 20)) {
         let mut b = vec![0u8; 8 * F::LIMBS];
         rng.fill_bytes(&mut b);
         exps.push(BigUint::from_bytes_le(&b));
@@ -336,7 +379,7 @@ pub fn run_core<F: PF>(ctx: &mut Ctx) {
         dec.push(("2p", &p * 2u32));
         dec.push(("2p-1", &p * 2u32 - 1u32));
     }
-    for _ in 0..(if ctx.quick() { 8 } else { 200 }) {
+    for _ in 0..(crate::sz(ctx, 8, 200)) {
         let mut b = vec![0u8; len];
         rng.fill_bytes(&mut b);
         dec.push(("random-bytes", BigUint::from_bytes_le(&b)));
@@ -502,7 +545,7 @@ fn probe_sum_ref(ctx: &mut Ctx) {
 
 fn run_legendre<F: PF + Legendre>(ctx: &mut Ctx) {
     let n = F::NAME;
-    let cls = classes::<F>(ctx, if ctx.quick() { 8 } else { 100 });
+    let cls = classes::<F>(ctx, crate::sz(ctx, 8, 100));
     for (c, v) in &cls {
         let a = fe::<F>(v);
         let av = big_hex(v);
@@ -551,7 +594,7 @@ fn uniform_patterns(ctx: &Ctx, label: &str, len: usize, p: &BigUint) -> Vec<(&'s
     let hi_ff: Vec<u8> = lo_ff.iter().map(|b| !b).collect();
     v.push(("high-half-ff", hi_ff));
     let mut rng = ctx.rng(label);
-    for _ in 0..(if ctx.quick() { 12 } else { 300 }) {
+    for _ in 0..(crate::sz(ctx, 12, 300)) {
         let mut b = vec![0u8; len];
         rng.fill_bytes(&mut b);
         v.push(("random", b));
@@ -587,7 +630,7 @@ fn run_serde_object<F: PF + SerdeObject>(ctx: &mut Ctx) {
             vals.push(("p-2^64k", &p - pow2(64 * k)));
         }
     }
-    for _ in 0..(if ctx.quick() { 10 } else { 200 }) {
+    for _ in 0..(crate::sz(ctx, 10, 200)) {
         let mut b = vec![0u8; len];
         rng.fill_bytes(&mut b);
         vals.push(("random-bytes", BigUint::from_bytes_le(&b)));
@@ -700,6 +743,11 @@ fn run_bls_extras(ctx: &mut Ctx) {
     }
     ctx.case("const", true, "const BlsFq CHAR", &big_hex(&BigUint::from_bytes_le(&BlsFq::char())));
     ctx.case("const", true, "const BlsFq ZETA", &hx(&<BlsFq as ff::WithSmallOrderMulGroup<3>>::ZETA));
+    zeta_oracle::<BlsFq>(ctx);
+    zeta_oracle::<BlsFp>(ctx);
+    zeta_oracle::<C25519Fp>(ctx);
+    zeta_oracle::<Bn256Fq>(ctx);
+    zeta_oracle::<Bn256Fr>(ctx);
     // non-canonical inputs of the remaining checked decoders
     for v in [p.clone(), &p + 1u32, pow2(256) - 1u32, pow2(255)] {
         let mut b = v.to_bytes_le();
@@ -784,6 +832,13 @@ fn run_bls_extras(ctx: &mut Ctx) {
             "bls12_381::Fp publishes S = 0, ROOT_OF_UNITY = 1, DELTA = 0: p - 1 = 2^S·t with t odd and DELTA = g^(2^S) do not hold (true S = 1)",
             json!({"S": BlsFp::S, "true_S": true_s, "DELTA": hx(&BlsFp::DELTA), "g^(2^S)": big_hex(&g.modpow(&pow2(BlsFp::S as usize), &p))}),
         );
+    }
+}
+
+fn zeta_oracle<F: PF + ff::WithSmallOrderMulGroup<3>>(ctx: &mut Ctx) {
+    let z = F::ZETA;
+    if z == F::ONE || z * z * z != F::ONE {
+        fail(ctx, format!("{}:constants:ZETA", F::NAME), "ZETA is not a primitive cube root of unity", json!({"field": F::NAME}));
     }
 }
 
